@@ -134,7 +134,10 @@ pub fn scan(s: &str) -> Result<Vec<Ev>, String> {
                 }
                 let quote = b[q] as char;
                 let e = s[q + 1..].find(quote).ok_or("unterminated attribute value")? + q + 1;
-                attrs.push((an, unescape(&s[q + 1..e])?));
+                // attribute-value normalisation: literal TAB, LF, CR (CRLF) become a space;
+                // characters that come from references are kept
+                let raw = s[q + 1..e].replace("\r\n", " ").replace(['\t', '\n', '\r'], " ");
+                attrs.push((an, unescape(&raw)?));
                 j = e + 1;
             }
             out.push(Ev::Start { name, attrs, empty });
